@@ -214,7 +214,7 @@ class CHECK(core.Check):
                   "that map at the normalised path for every dotted variant (C18_lookup_*, C18_dotted_variants), "
                   "rejected operations return the identical tree (C18_rejected_unchanged, and exactly when the "
                   "stated conflicts hold: C18_*_rejects_iff), every reachable entry is named by its path "
-                  "(C18_names_are_paths), last placed wins over histories (C18_last_placed_wins), every dict of the tree has distinct keys (C18_dicts_have_unique_keys). The unpatched "
+                  "(C18_names_are_paths), last placed wins over histories (C18_last_placed_wins), every dict of the tree has distinct keys (C18_dicts_have_unique_keys), an empty path segment is refused on every tree (C18_empty_segment_rejected). The unpatched "
                   "ordering of add/addNode is kept as `lg = true` with a decide-checked counterexample (D10).")
     LEVEL_NOTE = ("Trusted: Lean kernel; axioms propext, Classical.choice, Quot.sound; the hand transcription of "
                   "Store's eight methods (validated by comparing the whole tree after every step); CPython dict/str. "
